@@ -6,20 +6,39 @@
     * the scheme is not empty; an absent component (`Offs = 0`) has length 0;
     * the present components come one after the other behind the scheme, in buffer order (`usSeq`: user, password,
       host, port, parameters, headers — for a URI without host, i.e. tel:, the password comes BEFORE the user,
-      because the number is reported as user), and the last one ends below 65,536;
+      because the number is reported as user), and the last one ends below 65,536 (`usChain`);
     * the host is not empty, or there is no host and the user (the tel: number) is not empty.
-  and proves
-   (1) closure: `us_parsed_wf` (ParseURI establishes it, all schemes), `USWf.truncate`, `USWf.adjust` (AdjustOffs
-       keeps it whether the span is accepted or refused), and `USWf.ulwf` / `USWf.sum`: it implies the hypotheses
-       `ULWF u (ulLen u)` (= `C18.WF`) and `ulSum u ≤ ulLen u` of the C18 theorems. `us_adjust_eq` is the complete
-       description of AdjustOffs on such a URI (exact acceptance condition). Operations `USOp`, interpreter `usRun`:
-       `us_ops_never_panic`, `us_ops_every_step`, and for a parsed URI `uri_ops_never_panic`.
-   (2) `us_adjust_adjust` (relocating twice = relocating once to the second span), `us_adjust_back`.
-   (3) `us_truncate_adjust` (exact threshold after Truncate: `ulLen u.truncate`, the end of the last PRESENT component
-       of scheme..port; related to Long() by `us_long_le_len` / `us_long_eq_len`), `us_truncate_len_le`.
-   (4) `us_long_eq` / `us_short_eq` (the views in closed form, no panic), `us_long_relocate`, `us_short_relocate`,
-       `us_flat_relocate`, `us_comp_relocate` (bytes).
-   (5) tests with `sip:h;`, `sip:h:`, `sip:u:@h`, `sip:h?` at the end.
+  Proved, for ALL such URIs / spans / buffers (no size bounds):
+   (1) closure. `us_parsed_wf`: ParseURI establishes `USWf` (all schemes, input ≤ 65,535 bytes). `USWf.truncate`,
+       `USWf.adjust` (accepted AND refused spans; no panic), `USWf.relocate`. `USWf.ulwf` / `USWf.sum`: the invariant
+       implies `ULWF u (ulLen u)` (field for field `C18.WF`) and `ulSum u ≤ ulLen u`, the hypotheses of
+       `C18.adjust_moves` / `adjust_refused`; `us_ulwf_truncate`: plain `ULWF u L` survives Truncate as well.
+       `us_adjust_eq`: AdjustOffs completely (every 16-bit span): accepted iff the end does not wrap and
+       `Len ≥ ulLen u`; result = `ulRelocate u np.Offs`; else unchanged; never a panic.
+       Operations `USOp`, interpreter `usRun` (stops at the first panic), obligations `usPre` / `usPreAll` (a span is two
+       16-bit numbers; the buffer given to Flat holds the span Long() reports): `us_exec_ok`, `us_ops_never_panic`,
+       `us_ops_every_step`, and for a parsed URI `uri_ops_never_panic` (every prefix of every sequence).
+   (2) `us_relocate_relocate`, `us_relocate_self`, `us_adjust_adjust` (second call accepted iff the direct call is; same
+       result), `us_adjust_back`, `us_parsed_relocate_twice`.
+   (3) `us_truncate_adjust`, `us_truncate_len`, `us_parsed_truncate_adjust`: after Truncate the threshold is
+       `ulLen u.truncate` (end of the last PRESENT component of scheme … port) — NOT the original length; it equals the
+       length of Short() (= Long() after Truncate, `us_truncate_long`) unless the port is present but empty.
+   (4) `us_long_eq` / `us_short_eq` / `us_flat_eq` (closed forms, no panic), `us_ends`, `us_short_prefix_long`,
+       `us_long_le_len`, `us_long_eq_len`; `us_long_relocate`, `us_short_relocate`, `us_truncate_relocate`,
+       `us_flat_relocate`, `us_comp_relocate` (bytes, `USSameText`), and through AdjustOffs: `us_adjust_views`.
+   (5) tests with `sip:h;`, `sip:h:`, `sip:u:@h`, `sip:h?`, `sip:h:;x`, `tel:a:b@c` at the end (`decide +kernel`; the
+       theorems themselves make no exception for present-but-empty components).
+  FINAL THEOREMS (for re-export) carry `EXPORT C18` in their doc comment.
+
+  OBSERVATIONS (true of the model, pinned by tests, no defect claimed):
+   * AdjustOffs measures the URI up to the last PRESENT component, Long() / Flat() up to the last NON-EMPTY one. For
+     `sip:h;`, `sip:h:`, `sip:h?` (6 bytes) Long() is `sip:h` (5 bytes) and a span of Long().Len = 5 bytes is REFUSED; 6
+     are needed (the dangling delimiter counts). Same after Truncate when the port is present but empty (`sip:h:;x`:
+     truncated threshold 6, Long() 5).
+   * a relocated present-but-empty component stays present (its new offset is > the new scheme offset ≥ 0), so
+     "present" is stable under every sequence of operations; this needs the scheme to be non-empty (`USWf.sch`).
+  NOT proved here: nothing about URIs that are not the result of ParseURI + these operations (e.g. hand-built
+  structures with overlapping components); nothing about AdjustOffs spans whose fields exceed 16 bits (`usSpan`).
 -/
 import Sipsp.Proofs.UriLink
 
@@ -239,7 +258,7 @@ theorem USWf.sch_le {u : PsipURI} (h : USWf u) : u.scheme.len ≤ ulLen u := by
   have m6 := us_step_mono s6
   omega
 
-/-- **the invariant implies the well-formedness hypothesis of the AdjustOffs theorems** (`ULWF`, field for field
+/-- EXPORT C18 — **(1) the invariant implies the well-formedness hypothesis of the AdjustOffs theorems** (`ULWF`, field for field
     `C18.WF`), with `L` = the length AdjustOffs computes -/
 theorem USWf.ulwf {u : PsipURI} (h : USWf u) : ULWF u (ulLen u) := by
   refine ⟨h.lim, h.sch_le, ?_, Nat.le_refl _⟩
@@ -264,7 +283,7 @@ theorem USWf.sum {u : PsipURI} (h : USWf u) : ulSum u ≤ ulLen u := by
 /-- the span is made of two 16-bit numbers (Go: `OffsT` = `uint16`) -/
 def usSpan (np : PField) : Prop := np.offs < 65536 ∧ np.len < 65536
 
-/-- **AdjustOffs on a URI that satisfies the invariant, for EVERY span**: it never panics; the span is accepted
+/-- EXPORT C18 — **AdjustOffs on a URI that satisfies the invariant, for EVERY span**: it never panics; the span is accepted
     exactly when its end stays inside the 16-bit range and its length is at least `ulLen u` (the end of the last
     PRESENT component, relative to the scheme); then the result is the URI moved to `np.Offs`; otherwise nothing is
     changed -/
@@ -346,7 +365,7 @@ theorem USWf.relocate {u : PsipURI} (h : USWf u) (o : Nat) (ho : o + ulLen u < 6
   have hs' : (ulRelocate u o).scheme.offs = o := rfl
   omega
 
-/-- **closure under AdjustOffs, accepted or refused**: whatever the span, the call does not panic and the URI it
+/-- EXPORT C18 — **(1) closure under AdjustOffs, accepted or refused**: whatever the span, the call does not panic and the URI it
     leaves behind satisfies the invariant, with the same computed length -/
 theorem USWf.adjust {u : PsipURI} (h : USWf u) (np : PField) (hnp : usSpan np) :
     (u.adjustOffs np).2.2 = false ∧ USWf (u.adjustOffs np).2.1 ∧ ulLen (u.adjustOffs np).2.1 = ulLen u := by
@@ -359,7 +378,7 @@ theorem USWf.adjust {u : PsipURI} (h : USWf u) (np : PField) (hnp : usSpan np) :
 
 theorem us_step_absent (c : Nat) : usStepP c ({} : PField) c := Or.inl ⟨rfl, rfl, rfl⟩
 
-/-- **closure under Truncate**; the computed length can only shrink -/
+/-- EXPORT C18 — **(1) closure under Truncate**; the computed length can only shrink -/
 theorem USWf.truncate {u : PsipURI} (h : USWf u) : USWf u.truncate ∧ ulLen u.truncate ≤ ulLen u := by
   obtain ⟨h1, h3, q1, q2, q3, q4, q5, q6, s1, s2, s3, s4, s5, s6, hl⟩ := (us_wf_iff u).1 h
   have m5 := us_step_mono s5
@@ -371,6 +390,46 @@ theorem USWf.truncate {u : PsipURI} (h : USWf u) : USWf u.truncate ∧ ulLen u.t
   refine ⟨(us_wf_iff _).2 ⟨h1, h3, q1, q2, q3, q4, q4, q4, s1, s2, s3, s4, us_step_absent q4, us_step_absent q4,
     by omega⟩, ?_⟩
   omega
+
+theorem us_ulenStep_ge (a s : Nat) (f : PField) : a ≤ ulenStep a s f := by
+  unfold ulenStep
+  split
+  · rename_i hc
+    simp only [Bool.and_eq_true, decide_eq_true_eq] at hc
+    omega
+  · exact Nat.le_refl _
+
+/-- the plain hypothesis of the C18 theorems (`ULWF u L` = `C18.WF u L`, any `L`, no other assumption) also survives
+    Truncate, with the same `L` -/
+theorem us_ulwf_truncate {u : PsipURI} {L : Nat} (h : ULWF u L) : ULWF u.truncate L := by
+  refine ⟨h.lim, h.sch, ?_, ?_⟩
+  · intro f hf hz
+    simp only [ulComps, PsipURI.truncate, List.mem_cons, List.not_mem_nil, or_false] at hf
+    rcases hf with rfl | rfl | rfl | rfl | rfl | rfl
+    · exact h.inside _ (by simp [ulComps]) hz
+    · exact h.inside _ (by simp [ulComps]) hz
+    · exact h.inside _ (by simp [ulComps]) hz
+    · exact h.inside _ (by simp [ulComps]) hz
+    · exact absurd rfl hz
+    · exact absurd rfl hz
+  · have h0 := h.ulen
+    unfold ulLen ulComps at h0 ⊢
+    simp only [List.foldl_cons, List.foldl_nil] at h0 ⊢
+    have e : ∀ a s, ulenStep a s ({} : PField) = a := by
+      intro a s
+      unfold ulenStep
+      have z : (({} : PField).offs != 0) = false := rfl
+      rw [z]
+      simp only [Bool.false_and, Bool.false_eq_true, ↓reduceIte]
+    show ulenStep (ulenStep _ u.scheme.offs ({} : PField)) u.scheme.offs ({} : PField) ≤ L
+    rw [e, e]
+    have g1 := us_ulenStep_ge (ulenStep (ulenStep (ulenStep (ulenStep u.scheme.len u.scheme.offs u.user) u.scheme.offs u.pass)
+      u.scheme.offs u.host) u.scheme.offs u.port) u.scheme.offs u.params
+    have g2 := us_ulenStep_ge (ulenStep (ulenStep (ulenStep (ulenStep (ulenStep u.scheme.len u.scheme.offs u.user)
+      u.scheme.offs u.pass) u.scheme.offs u.host) u.scheme.offs u.port) u.scheme.offs u.params) u.scheme.offs u.headers
+    show ulenStep (ulenStep (ulenStep (ulenStep u.scheme.len u.scheme.offs u.user) u.scheme.offs u.pass)
+      u.scheme.offs u.host) u.scheme.offs u.port ≤ L
+    omega
 
 /-! ## (4) the views in closed form -/
 
@@ -420,7 +479,7 @@ theorem USWf.nohost {u : PsipURI} (h : USWf u) (hh : ¬ u.host.len > 0) :
     · unfold usStepP at s1 s2; omega
     · exact absurd hc1 hz
 
-/-- **Long() in closed form**: no panic; it starts at the scheme and ends where the last non-empty component ends -/
+/-- EXPORT C18 — **(4) Long() in closed form**: no panic; it starts at the scheme and ends where the last non-empty component ends -/
 theorem us_long_eq {u : PsipURI} (h : USWf u) :
     u.long = (⟨u.scheme.offs, usLongEnd u - u.scheme.offs⟩, false) := by
   have hlim := h.lim
@@ -451,7 +510,7 @@ theorem us_long_eq {u : PsipURI} (h : USWf u) :
     rw [if_pos c5, if_pos hc, h.setFrom _ (by simp [ulComps]) hu]
   · rw [if_neg c5, if_pos hu, h.setFrom _ (by simp [ulComps]) hu]
 
-/-- **Short() in closed form**: no panic; it starts at the scheme and ends at the port (if not empty, else at the host) -/
+/-- EXPORT C18 — **(4) Short() in closed form**: no panic; it starts at the scheme and ends at the port (if not empty, else at the host) -/
 theorem us_short_eq {u : PsipURI} (h : USWf u) :
     u.short = (⟨u.scheme.offs, usShortEnd u - u.scheme.offs⟩, false) := by
   unfold PsipURI.short usShortEnd
@@ -495,6 +554,417 @@ theorem us_ends {u : PsipURI} (h : USWf u) :
   · repeat' split
     all_goals omega
 
+theorem us_sel_step {c q : Nat} {f : PField} (h : usStepP c f q) (hne : f.offs ≠ 0 → 0 < f.len) (X : Nat)
+    (hX : X = c) : (if f.len > 0 then f.offs + f.len else X) = q := by
+  unfold usStepP at h
+  split <;> omega
+
+/-- the present-but-empty corner: when every present trailing component (port, parameters, headers) is non-empty,
+    Long() covers exactly the length AdjustOffs computes -/
+theorem us_long_eq_len {u : PsipURI} (h : USWf u)
+    (hne : ∀ f ∈ [u.port, u.params, u.headers], f.offs ≠ 0 → 0 < f.len) :
+    usLongEnd u = u.scheme.offs + ulLen u := by
+  obtain ⟨hk, hc, a, b, q1, q2, q3, q4, q5, q6, hab, s1, s2, s3, s4, s5, s6, hl, hq⟩ := h.facts
+  have n1 := hne u.port (by simp)
+  have n2 := hne u.params (by simp)
+  have n3 := hne u.headers (by simp)
+  have e3 : (if u.host.len > 0 then u.host.offs + u.host.len else u.user.offs + u.user.len) = q3 := by
+    by_cases hh : u.host.len > 0
+    · rw [if_pos hh]
+      unfold usStepP at s3
+      clear s1 s2 s4 s5 s6 n1 n2 n3 hab hc
+      omega
+    · rw [if_neg hh]
+      rcases hc with hc | ⟨hc1, hc2⟩
+      · exact absurd hc hh
+      · rcases hab with ⟨_, rfl, rfl⟩ | ⟨hz, _, _⟩
+        · unfold usStepP at s2 s3
+          clear s1 s4 s5 s6 n1 n2 n3
+          omega
+        · exact absurd hc1 hz
+  have e4 := us_sel_step s4 n1 _ e3
+  have e5 := us_sel_step s5 n2 _ e4
+  have e6 := us_sel_step s6 n3 _ e5
+  unfold usLongEnd
+  rw [e6, hq]
+
+/-- Long() never reports more than the length AdjustOffs computes -/
+theorem us_long_le_len {u : PsipURI} (h : USWf u) : u.long.1.len ≤ ulLen u := by
+  rw [us_long_eq h]
+  have := (us_ends h).2.2
+  show usLongEnd u - u.scheme.offs ≤ ulLen u
+  omega
+
+/-- EXPORT C18 — (4) the short view is a prefix of the long view: same start, not longer; neither panics -/
+theorem us_short_prefix_long {u : PsipURI} (h : USWf u) :
+    u.long.2 = false ∧ u.short.2 = false ∧ u.long.1.offs = u.scheme.offs ∧ u.short.1.offs = u.scheme.offs ∧
+    u.scheme.len < u.short.1.len ∧ u.short.1.len ≤ u.long.1.len ∧ u.long.1.len ≤ ulLen u := by
+  rw [us_long_eq h, us_short_eq h]
+  obtain ⟨e1, e2, e3⟩ := us_ends h
+  refine ⟨rfl, rfl, rfl, rfl, ?_, ?_, ?_⟩
+  · show u.scheme.len < usShortEnd u - u.scheme.offs; omega
+  · show usShortEnd u - u.scheme.offs ≤ usLongEnd u - u.scheme.offs; omega
+  · show usLongEnd u - u.scheme.offs ≤ ulLen u; omega
+
+/-- EXPORT C18 — **(4) Long after Truncate = Short**, for every URI that satisfies the invariant (also tel: with a password) -/
+theorem us_truncate_long {u : PsipURI} (h : USWf u) : u.truncate.long = u.short := by
+  rw [us_long_eq h.truncate.1, us_short_eq h]
+  have e : usLongEnd u.truncate = usShortEnd u := by
+    unfold usLongEnd usShortEnd PsipURI.truncate
+    have z : ({} : PField).len = 0 := rfl
+    simp only [z, Nat.lt_irrefl, ↓reduceIte]
+  rw [e]
+  rfl
+
+/-- Flat in closed form: the bytes from the scheme to the end of the last non-empty component; it panics exactly
+    when the buffer is shorter than that -/
+theorem us_flat_eq {u : PsipURI} (h : USWf u) (b : Buf) :
+    u.flat b = if usLongEnd u ≤ b.size then some (b.extract u.scheme.offs (usLongEnd u)) else none := by
+  obtain ⟨e1, e2, e3⟩ := us_ends h
+  have hl := h.lim
+  unfold PsipURI.flat
+  rw [us_long_eq h]
+  simp only [Bool.false_eq_true, ↓reduceIte]
+  unfold PField.get? PField.endT
+  simp only
+  have e : u.scheme.offs + (usLongEnd u - u.scheme.offs) = usLongEnd u := by omega
+  rw [e, trunc16_of_lt (by omega)]
+  by_cases hb : usLongEnd u ≤ b.size
+  · rw [if_pos hb, if_pos ⟨by omega, hb⟩]
+  · rw [if_neg hb, if_neg (fun hh => hb hh.2)]
+
+/-! ### (4) the views commute with relocation -/
+
+theorem us_moved_end {f : PField} (s o : Nat) (hl : 0 < f.len) (hz : f.offs = 0 → f.len = 0) (hs : s ≤ f.offs) :
+    (ulMoved f s o).offs + (ulMoved f s o).len = f.offs + f.len - s + o := by
+  have hp : f.offs ≠ 0 := fun h0 => by have := hz h0; omega
+  rw [us_moved_present s o hp]
+  simp only
+  omega
+
+theorem us_longEnd_relocate {u : PsipURI} (h : USWf u) (o : Nat) :
+    usLongEnd (ulRelocate u o) = usLongEnd u - u.scheme.offs + o ∧
+    usShortEnd (ulRelocate u o) = usShortEnd u - u.scheme.offs + o := by
+  have hu := h.comps u.user (by simp [ulComps])
+  have hh := h.comps u.host (by simp [ulComps])
+  have hpo := h.comps u.port (by simp [ulComps])
+  have hpa := h.comps u.params (by simp [ulComps])
+  have hhd := h.comps u.headers (by simp [ulComps])
+  have mk : ∀ f : PField, ((f.offs = 0 → f.len = 0) ∧
+      (f.offs ≠ 0 → u.scheme.offs + u.scheme.len ≤ f.offs ∧ f.offs + f.len ≤ u.scheme.offs + ulLen u)) →
+      0 < f.len → (ulMoved f u.scheme.offs o).offs + f.len =
+        f.offs + f.len - u.scheme.offs + o := by
+    intro f hf hl
+    have hp : f.offs ≠ 0 := fun h0 => by have := hf.1 h0; omega
+    have := us_moved_end u.scheme.offs o hl hf.1 (by have := hf.2 hp; omega)
+    rw [ul_moved_len] at this
+    exact this
+  have eU : ¬ u.host.len > 0 → (ulMoved u.user u.scheme.offs o).offs + u.user.len =
+        u.user.offs + u.user.len - u.scheme.offs + o := fun c4 => mk _ hu (h.nohost c4).2.1
+  unfold usLongEnd usShortEnd
+  simp only [ulRelocate, ul_moved_len]
+  constructor
+  · by_cases c1 : u.headers.len > 0
+    · rw [if_pos c1, if_pos c1]; exact mk _ hhd c1
+    rw [if_neg c1, if_neg c1]
+    by_cases c2 : u.params.len > 0
+    · rw [if_pos c2, if_pos c2]; exact mk _ hpa c2
+    rw [if_neg c2, if_neg c2]
+    by_cases c3 : u.port.len > 0
+    · rw [if_pos c3, if_pos c3]; exact mk _ hpo c3
+    rw [if_neg c3, if_neg c3]
+    by_cases c4 : u.host.len > 0
+    · rw [if_pos c4, if_pos c4]; exact mk _ hh c4
+    rw [if_neg c4, if_neg c4]; exact eU c4
+  · by_cases c3 : u.port.len > 0
+    · rw [if_pos c3, if_pos c3]; exact mk _ hpo c3
+    rw [if_neg c3, if_neg c3]
+    by_cases c4 : u.host.len > 0
+    · rw [if_pos c4, if_pos c4]; exact mk _ hh c4
+    rw [if_neg c4, if_neg c4]; exact eU c4
+
+/-- **Long() of the relocated URI is the relocated Long()**: same length, new start, no panic -/
+theorem us_long_relocate {u : PsipURI} (h : USWf u) (o : Nat) (ho : o + ulLen u < 65536) :
+    (ulRelocate u o).long = ({ u.long.1 with offs := o }, false) := by
+  obtain ⟨e1, e2, e3⟩ := us_ends h
+  rw [us_long_eq (h.relocate o ho).1, us_long_eq h, (us_longEnd_relocate h o).1]
+  have e : usLongEnd u - u.scheme.offs + o - o = usLongEnd u - u.scheme.offs := by omega
+  show (({ offs := o, len := usLongEnd u - u.scheme.offs + o - o } : PField), false) = _
+  rw [e]
+
+/-- **Short() of the relocated URI is the relocated Short()** -/
+theorem us_short_relocate {u : PsipURI} (h : USWf u) (o : Nat) (ho : o + ulLen u < 65536) :
+    (ulRelocate u o).short = ({ u.short.1 with offs := o }, false) := by
+  obtain ⟨e1, e2, e3⟩ := us_ends h
+  rw [us_short_eq (h.relocate o ho).1, us_short_eq h, (us_longEnd_relocate h o).2]
+  have e : usShortEnd u - u.scheme.offs + o - o = usShortEnd u - u.scheme.offs := by omega
+  show (({ offs := o, len := usShortEnd u - u.scheme.offs + o - o } : PField), false) = _
+  rw [e]
+
+/-- Truncate commutes with relocation -/
+theorem us_truncate_relocate (u : PsipURI) (o : Nat) : (ulRelocate u o).truncate = ulRelocate u.truncate o := by
+  unfold PsipURI.truncate ulRelocate
+  have z : ulMoved ({} : PField) u.scheme.offs o = {} := us_moved_absent _ _ rfl
+  simp only [z]
+
+/-! ### bytes: the buffer `b2` holds at `o` the `n` bytes that `b` holds at `s` -/
+
+/-- `b2[o, o+n)` and `b[s, s+n)` exist and are the same bytes -/
+def USSameText (b2 : Buf) (o : Nat) (b : Buf) (s n : Nat) : Prop :=
+  o + n ≤ b2.size ∧ s + n ≤ b.size ∧ b2.extract o (o + n) = b.extract s (s + n)
+
+theorem us_extract_sub {b2 b : Buf} {o s n : Nat} (h : USSameText b2 o b s n) (d l : Nat) (hdl : d + l ≤ n) :
+    b2.extract (o + d) (o + d + l) = b.extract (s + d) (s + d + l) := by
+  have e1 : b2.extract (o + d) (o + d + l) = (b2.extract o (o + n)).extract d (d + l) := by
+    rw [Array.extract_extract]
+    congr 1
+    omega
+  have e2 : b.extract (s + d) (s + d + l) = (b.extract s (s + n)).extract d (d + l) := by
+    rw [Array.extract_extract]
+    congr 1
+    omega
+  rw [e1, e2, h.2.2]
+
+/-- a field inside `[s, s+n)` of `b`, moved to `o`, reads in `b2` the bytes the original reads in `b` (neither
+    `Get` panics) -/
+theorem us_get_shift {b2 b : Buf} {o s n : Nat} (h : USSameText b2 o b s n) (ho : o + n < 65536) (hs : s + n < 65536)
+    (f : PField) (h1 : s ≤ f.offs) (h2 : f.offs + f.len ≤ s + n) :
+    PField.get? b2 ⟨f.offs - s + o, f.len⟩ = some (b.extract f.offs (f.offs + f.len)) ∧
+    PField.get? b f = some (b.extract f.offs (f.offs + f.len)) := by
+  obtain ⟨g1, g2, g3⟩ := h
+  unfold PField.get? PField.endT
+  simp only
+  rw [trunc16_of_lt (show f.offs - s + o + f.len < 65536 by omega), trunc16_of_lt (show f.offs + f.len < 65536 by omega),
+    if_pos ⟨by omega, by omega⟩, if_pos ⟨by omega, by omega⟩]
+  refine ⟨?_, rfl⟩
+  have := us_extract_sub ⟨g1, g2, g3⟩ (f.offs - s) f.len (by omega)
+  have e1 : o + (f.offs - s) = f.offs - s + o := by omega
+  have e2 : s + (f.offs - s) = f.offs := by omega
+  rw [e1, e2] at this
+  rw [this]
+
+/-- **every component of the relocated URI denotes the same bytes**: when `b2` holds at `o` the text that `b` holds
+    at the scheme offset of `u` (`ulLen u` bytes), `Get` on each of the seven fields of the relocated URI returns in
+    `b2` what `Get` on the original field returns in `b`, and neither panics -/
+theorem us_comp_relocate {u : PsipURI} (h : USWf u) (o : Nat) (ho : o + ulLen u < 65536) (b2 b : Buf)
+    (ht : USSameText b2 o b u.scheme.offs (ulLen u)) :
+    (PField.get? b2 (ulRelocate u o).scheme = PField.get? b u.scheme ∧ (PField.get? b u.scheme).isSome) ∧
+    ∀ f ∈ ulComps u, PField.get? b2 (ulMoved f u.scheme.offs o) = PField.get? b f ∧ (PField.get? b f).isSome := by
+  have hl := h.lim
+  constructor
+  · have := us_get_shift ht ho hl u.scheme (Nat.le_refl _) (by have := h.sch_le; omega)
+    have e : (ulRelocate u o).scheme = ⟨u.scheme.offs - u.scheme.offs + o, u.scheme.len⟩ := by
+      show ({ u.scheme with offs := o } : PField) = _
+      rw [Nat.sub_self, Nat.zero_add]
+    rw [e, this.1, this.2]
+    exact ⟨rfl, rfl⟩
+  · intro f hf
+    have hc := h.comps f hf
+    by_cases hz : f.offs = 0
+    · rw [us_moved_absent _ _ hz]
+      have hlen := hc.1 hz
+      have e : f = ⟨0, 0⟩ := by cases f; simp only at hz hlen; rw [hz, hlen]
+      rw [e]
+      unfold PField.get? PField.endT
+      simp only [Nat.add_zero, trunc16_of_lt (show 0 < 65536 by omega)]
+      rw [if_pos ⟨Nat.le_refl _, Nat.zero_le _⟩, if_pos ⟨Nat.le_refl _, Nat.zero_le _⟩,
+        Array.extract_empty_of_stop_le_start (Nat.le_refl _), Array.extract_empty_of_stop_le_start (Nat.le_refl _)]
+      exact ⟨rfl, rfl⟩
+    · rw [us_moved_present _ _ hz]
+      have hb := hc.2 hz
+      have := us_get_shift ht ho hl f (by omega) hb.2
+      rw [this.1, this.2]
+      exact ⟨rfl, rfl⟩
+
+/-- **Flat of the relocated URI in the new buffer = Flat of the original in the old buffer** (no panic) -/
+theorem us_flat_relocate {u : PsipURI} (h : USWf u) (o : Nat) (ho : o + ulLen u < 65536) (b2 b : Buf)
+    (ht : USSameText b2 o b u.scheme.offs (ulLen u)) :
+    (ulRelocate u o).flat b2 = u.flat b ∧ u.flat b = some (b.extract u.scheme.offs (usLongEnd u)) := by
+  obtain ⟨e1, e2, e3⟩ := us_ends h
+  obtain ⟨g1, g2, g3⟩ := ht
+  have hr := h.relocate o ho
+  rw [us_flat_eq hr.1, us_flat_eq h, (us_longEnd_relocate h o).1]
+  have hs : (ulRelocate u o).scheme.offs = o := rfl
+  rw [hs, if_pos (by omega), if_pos (by omega)]
+  refine ⟨?_, rfl⟩
+  have := us_extract_sub ⟨g1, g2, g3⟩ 0 (usLongEnd u - u.scheme.offs) (by omega)
+  simp only [Nat.add_zero] at this
+  have e : u.scheme.offs + (usLongEnd u - u.scheme.offs) = usLongEnd u := by omega
+  have e' : usLongEnd u - u.scheme.offs + o = o + (usLongEnd u - u.scheme.offs) := by omega
+  rw [e] at this
+  rw [e', this]
+
+/-! ## (2) relocation composes -/
+
+theorem us_moved_moved {f : PField} (s a c : Nat) (hz : f.offs ≠ 0 → s < f.offs) :
+    ulMoved (ulMoved f s a) a c = ulMoved f s c := by
+  by_cases h0 : f.offs = 0
+  · rw [us_moved_absent s a h0, us_moved_absent a c h0, us_moved_absent s c h0]
+  · have := hz h0
+    rw [us_moved_present s a h0, us_moved_present s c h0, us_moved_present a c (by simp only; omega)]
+    simp only
+    congr 1
+    omega
+
+theorem us_moved_self {f : PField} (s : Nat) (hz : f.offs ≠ 0 → s ≤ f.offs) : ulMoved f s s = f := by
+  by_cases h0 : f.offs = 0
+  · rw [us_moved_absent s s h0]
+  · have := hz h0
+    rw [us_moved_present s s h0]
+    cases f
+    simp only at this ⊢
+    congr 1
+    omega
+
+/-- every present component starts strictly behind the scheme offset -/
+theorem USWf.behind {u : PsipURI} (h : USWf u) (f : PField) (hf : f ∈ ulComps u) (hz : f.offs ≠ 0) :
+    u.scheme.offs < f.offs := by
+  have := (h.comps f hf).2 hz
+  have := h.sch
+  omega
+
+/-- **moving twice = moving once to the second position** (every component) -/
+theorem us_relocate_relocate {u : PsipURI} (h : USWf u) (a c : Nat) :
+    ulRelocate (ulRelocate u a) c = ulRelocate u c := by
+  have e1 := us_moved_moved u.scheme.offs a c (h.behind u.user (by simp [ulComps]))
+  have e2 := us_moved_moved u.scheme.offs a c (h.behind u.pass (by simp [ulComps]))
+  have e3 := us_moved_moved u.scheme.offs a c (h.behind u.host (by simp [ulComps]))
+  have e4 := us_moved_moved u.scheme.offs a c (h.behind u.port (by simp [ulComps]))
+  have e5 := us_moved_moved u.scheme.offs a c (h.behind u.params (by simp [ulComps]))
+  have e6 := us_moved_moved u.scheme.offs a c (h.behind u.headers (by simp [ulComps]))
+  simp only [ulRelocate, e1, e2, e3, e4, e5, e6]
+
+/-- **moving back to where it was restores the structure exactly** -/
+theorem us_relocate_self {u : PsipURI} (h : USWf u) : ulRelocate u u.scheme.offs = u := by
+  have e1 := us_moved_self u.scheme.offs (fun hz => Nat.le_of_lt (h.behind u.user (by simp [ulComps]) hz))
+  have e2 := us_moved_self u.scheme.offs (fun hz => Nat.le_of_lt (h.behind u.pass (by simp [ulComps]) hz))
+  have e3 := us_moved_self u.scheme.offs (fun hz => Nat.le_of_lt (h.behind u.host (by simp [ulComps]) hz))
+  have e4 := us_moved_self u.scheme.offs (fun hz => Nat.le_of_lt (h.behind u.port (by simp [ulComps]) hz))
+  have e5 := us_moved_self u.scheme.offs (fun hz => Nat.le_of_lt (h.behind u.params (by simp [ulComps]) hz))
+  have e6 := us_moved_self u.scheme.offs (fun hz => Nat.le_of_lt (h.behind u.headers (by simp [ulComps]) hz))
+  simp only [ulRelocate, e1, e2, e3, e4, e5, e6]
+
+/-- an accepted AdjustOffs, read backwards -/
+theorem us_adjust_accepted {u : PsipURI} (h : USWf u) (np : PField) (hnp : usSpan np)
+    (hacc : (u.adjustOffs np).1 = true) :
+    np.offs + np.len < 65536 ∧ ulLen u ≤ np.len ∧ u.adjustOffs np = (true, ulRelocate u np.offs, false) := by
+  have e := us_adjust_eq h np hnp
+  by_cases hc : np.offs + np.len < 65536 ∧ ulLen u ≤ np.len
+  · rw [if_pos hc] at e
+    exact ⟨hc.1, hc.2, e⟩
+  · rw [if_neg hc] at e
+    rw [e] at hacc
+    cases hacc
+
+/-- EXPORT C18 — **(2) AdjustOffs to `np1` (accepted), then to `np2`**: the second call is accepted exactly when `np2` would have been
+    accepted directly; then the result (every component, the flags) is that of the direct call; otherwise the second
+    call changes nothing -/
+theorem us_adjust_adjust {u : PsipURI} (h : USWf u) (np1 np2 : PField) (h1 : usSpan np1) (h2 : usSpan np2)
+    (hacc : (u.adjustOffs np1).1 = true) :
+    ((u.adjustOffs np1).2.1.adjustOffs np2).1 = (u.adjustOffs np2).1 ∧
+    ((u.adjustOffs np2).1 = true → (u.adjustOffs np1).2.1.adjustOffs np2 = u.adjustOffs np2) ∧
+    ((u.adjustOffs np2).1 = false →
+      (u.adjustOffs np1).2.1.adjustOffs np2 = (false, (u.adjustOffs np1).2.1, false)) := by
+  obtain ⟨a1, a2, a3⟩ := us_adjust_accepted h np1 h1 hacc
+  obtain ⟨hw, hlen⟩ := h.relocate np1.offs (by omega)
+  rw [a3]
+  simp only
+  rw [us_adjust_eq hw np2 h2, us_adjust_eq h np2 h2, hlen]
+  by_cases hc : np2.offs + np2.len < 65536 ∧ ulLen u ≤ np2.len
+  · rw [if_pos hc, if_pos hc, us_relocate_relocate h]
+    exact ⟨rfl, fun _ => rfl, (fun hh => by cases hh)⟩
+  · rw [if_neg hc, if_neg hc]
+    exact ⟨rfl, (fun hh => by cases hh), fun _ => rfl⟩
+
+/-- EXPORT C18 — **(2) relocating back onto the original position restores the original URI exactly** -/
+theorem us_adjust_back {u : PsipURI} (h : USWf u) (np1 np2 : PField) (h1 : usSpan np1) (h2 : usSpan np2)
+    (hacc : (u.adjustOffs np1).1 = true) (hback : np2.offs = u.scheme.offs) (hlen : ulLen u ≤ np2.len)
+    (hlim : np2.offs + np2.len < 65536) :
+    (u.adjustOffs np1).2.1.adjustOffs np2 = (true, u, false) := by
+  obtain ⟨_, e, _⟩ := us_adjust_adjust h np1 np2 h1 h2 hacc
+  have e2 := us_adjust_eq h np2 h2
+  rw [if_pos ⟨hlim, hlen⟩, hback, us_relocate_self h] at e2
+  rw [e (by rw [e2]), e2]
+
+/-! ## (3) Truncate, then AdjustOffs -/
+
+/-- EXPORT C18 — **(3) after Truncate the span only has to hold what is left**: AdjustOffs on the truncated URI never panics and
+    accepts a span (inside the 16-bit range) exactly when its length is at least `ulLen u.truncate` — the end of the
+    last PRESENT component among scheme … port, NOT the original length — and then the result is the truncated URI
+    moved; its Long() and Short() are the Short() of the original, moved -/
+theorem us_truncate_adjust {u : PsipURI} (h : USWf u) (np : PField) (hnp : usSpan np) :
+    u.truncate.adjustOffs np =
+      (if np.offs + np.len < 65536 ∧ ulLen u.truncate ≤ np.len then (true, ulRelocate u.truncate np.offs, false)
+       else (false, u.truncate, false)) ∧
+    ulLen u.truncate ≤ ulLen u ∧
+    (np.offs + ulLen u.truncate < 65536 →
+      (ulRelocate u.truncate np.offs).long = ({ u.short.1 with offs := np.offs }, false) ∧
+      (ulRelocate u.truncate np.offs).short = ({ u.short.1 with offs := np.offs }, false)) := by
+  obtain ⟨ht, hle⟩ := h.truncate
+  refine ⟨us_adjust_eq ht np hnp, hle, fun ho => ?_⟩
+  have hs : u.truncate.short = u.short := rfl
+  rw [us_long_relocate ht _ ho, us_short_relocate ht _ ho, us_truncate_long h, hs]
+  exact ⟨rfl, rfl⟩
+
+/-- EXPORT C18 — (3) the threshold after Truncate and the views: Short() (= Long() after Truncate) is never longer than the
+    threshold, and they are EQUAL unless the port is present but empty (`sip:h:;x`: threshold 6, Short() = 5) -/
+theorem us_truncate_len {u : PsipURI} (h : USWf u) :
+    u.truncate.long.1.len = u.short.1.len ∧ u.short.1.len ≤ ulLen u.truncate ∧
+    ((u.port.offs ≠ 0 → 0 < u.port.len) → ulLen u.truncate = u.short.1.len) := by
+  obtain ⟨ht, hle⟩ := h.truncate
+  have e := us_truncate_long h
+  refine ⟨by rw [e], ?_, fun hp => ?_⟩
+  · rw [← e]; exact us_long_le_len ht
+  · have hne : ∀ f ∈ [u.truncate.port, u.truncate.params, u.truncate.headers], f.offs ≠ 0 → 0 < f.len := by
+      intro f hf
+      simp only [List.mem_cons, List.not_mem_nil, or_false] at hf
+      rcases hf with rfl | rfl | rfl
+      · exact hp
+      · intro hz; exact absurd rfl hz
+      · intro hz; exact absurd rfl hz
+    have e2 := us_long_eq_len ht hne
+    have e3 := (us_ends ht).1
+    have e4 : u.truncate.long.1.len = usLongEnd u.truncate - u.truncate.scheme.offs := by rw [us_long_eq ht]
+    rw [← e, e4]
+    omega
+
+/-! ### (4) the same, through AdjustOffs -/
+
+/-- EXPORT C18 — **(4) the views commute with an accepted AdjustOffs**: Long / Short of the relocated URI are the Long /
+    Short of the original with the new start (same length, no panic); Truncate after AdjustOffs = AdjustOffs (same
+    span, also accepted) after Truncate; and when the buffer `b2` holds at `np.Offs` the bytes that `b` holds at the
+    old position, Flat and `Get` on every one of the seven fields return in `b2` what they return for the original
+    in `b`, without panic -/
+theorem us_adjust_views {u : PsipURI} (h : USWf u) (np : PField) (hnp : usSpan np)
+    (hacc : (u.adjustOffs np).1 = true) :
+    (u.adjustOffs np).2.1.long = ({ u.long.1 with offs := np.offs }, false) ∧
+    (u.adjustOffs np).2.1.short = ({ u.short.1 with offs := np.offs }, false) ∧
+    (u.truncate.adjustOffs np).1 = true ∧ (u.adjustOffs np).2.1.truncate = (u.truncate.adjustOffs np).2.1 ∧
+    ∀ b2 b, USSameText b2 np.offs b u.scheme.offs (ulLen u) →
+      (u.adjustOffs np).2.1.flat b2 = u.flat b ∧ (u.flat b).isSome ∧
+      PField.get? b2 (u.adjustOffs np).2.1.scheme = PField.get? b u.scheme ∧
+      PField.get? b2 (u.adjustOffs np).2.1.user = PField.get? b u.user ∧
+      PField.get? b2 (u.adjustOffs np).2.1.pass = PField.get? b u.pass ∧
+      PField.get? b2 (u.adjustOffs np).2.1.host = PField.get? b u.host ∧
+      PField.get? b2 (u.adjustOffs np).2.1.port = PField.get? b u.port ∧
+      PField.get? b2 (u.adjustOffs np).2.1.params = PField.get? b u.params ∧
+      PField.get? b2 (u.adjustOffs np).2.1.headers = PField.get? b u.headers ∧
+      (PField.get? b u.scheme).isSome ∧ ∀ f ∈ ulComps u, (PField.get? b f).isSome := by
+  obtain ⟨a1, a2, a3⟩ := us_adjust_accepted h np hnp hacc
+  have ho : np.offs + ulLen u < 65536 := by omega
+  obtain ⟨ht, hle⟩ := h.truncate
+  have et := us_adjust_eq ht np hnp
+  rw [if_pos ⟨a1, Nat.le_trans hle a2⟩] at et
+  rw [a3, et]
+  simp only
+  refine ⟨us_long_relocate h _ ho, us_short_relocate h _ ho, trivial, us_truncate_relocate u np.offs, ?_⟩
+  intro b2 b hb
+  obtain ⟨f1, f2⟩ := us_flat_relocate h _ ho b2 b hb
+  obtain ⟨⟨g0, g0'⟩, g⟩ := us_comp_relocate h _ ho b2 b hb
+  refine ⟨f1, by rw [f2]; rfl, g0, (g u.user (by simp [ulComps])).1, (g u.pass (by simp [ulComps])).1,
+    (g u.host (by simp [ulComps])).1, (g u.port (by simp [ulComps])).1, (g u.params (by simp [ulComps])).1,
+    (g u.headers (by simp [ulComps])).1, g0', fun f hf => (g f hf).2⟩
+
 /-! ## the operations and their interpreter -/
 
 /-- the calls a user of a parsed URI can make -/
@@ -534,5 +1004,355 @@ def usRun : PsipURI → List USOp → PsipURI × Bool
 def usPreAll : PsipURI → List USOp → Prop
   | _, [] => True
   | u, op :: r => usPre u op ∧ usPreAll (usExec u op).1 r
+
+/-- one call on a URI that satisfies the invariant: no panic, and the invariant holds afterwards; the URI type, the
+    port number and the scheme length are not touched and the computed length does not grow -/
+theorem us_exec_ok {u : PsipURI} (h : USWf u) (op : USOp) (hp : usPre u op) :
+    (usExec u op).2 = false ∧ USWf (usExec u op).1 ∧ ulLen (usExec u op).1 ≤ ulLen u ∧
+    (usExec u op).1.uriType = u.uriType ∧ (usExec u op).1.portNo = u.portNo ∧
+    (usExec u op).1.scheme.len = u.scheme.len := by
+  cases op with
+  | truncate => exact ⟨rfl, h.truncate.1, h.truncate.2, rfl, rfl, rfl⟩
+  | adjust np =>
+    obtain ⟨a1, a2, a3⟩ := h.adjust np hp
+    refine ⟨a1, a2, Nat.le_of_eq a3, ?_⟩
+    show (u.adjustOffs np).2.1.uriType = u.uriType ∧ (u.adjustOffs np).2.1.portNo = u.portNo ∧
+      (u.adjustOffs np).2.1.scheme.len = u.scheme.len
+    rw [us_adjust_eq h np hp]
+    split <;> exact ⟨rfl, rfl, rfl⟩
+  | long =>
+    refine ⟨?_, h, Nat.le_refl _, rfl, rfl, rfl⟩
+    show u.long.2 = false
+    rw [us_long_eq h]
+  | short =>
+    refine ⟨?_, h, Nat.le_refl _, rfl, rfl, rfl⟩
+    show u.short.2 = false
+    rw [us_short_eq h]
+  | flat b =>
+    refine ⟨?_, h, Nat.le_refl _, rfl, rfl, rfl⟩
+    show (u.flat b).isNone = false
+    have hp' : u.long.1.offs + u.long.1.len ≤ b.size := hp
+    rw [us_long_eq h] at hp'
+    have e1 := (us_ends h).1
+    have e2 := (us_ends h).2.1
+    have hb : usLongEnd u ≤ b.size := by
+      have : u.scheme.offs + (usLongEnd u - u.scheme.offs) ≤ b.size := hp'
+      omega
+    rw [us_flat_eq h b, if_pos hb]
+    rfl
+
+/-- EXPORT C18 — **(1) ANY finite sequence of Truncate / AdjustOffs (any 16-bit spans, accepted or refused) / Long / Short / Flat
+    calls on a URI that satisfies the invariant never panics**, and the URI at the end satisfies the invariant -/
+theorem us_ops_never_panic (ops : List USOp) : ∀ {u : PsipURI}, USWf u → usPreAll u ops →
+    (usRun u ops).2 = false ∧ USWf (usRun u ops).1 ∧ ulLen (usRun u ops).1 ≤ ulLen u ∧
+    (usRun u ops).1.uriType = u.uriType ∧ (usRun u ops).1.portNo = u.portNo ∧
+    (usRun u ops).1.scheme.len = u.scheme.len := by
+  induction ops with
+  | nil => intro u h _; exact ⟨rfl, h, Nat.le_refl _, rfl, rfl, rfl⟩
+  | cons op r ih =>
+    intro u h hpre
+    obtain ⟨e1, e2, e3, e4, e5, e6⟩ := us_exec_ok h op hpre.1
+    obtain ⟨i1, i2, i3, i4, i5, i6⟩ := ih e2 hpre.2
+    have hr : usRun u (op :: r) = usRun (usExec u op).1 r := by
+      show (if (usExec u op).2 then ((usExec u op).1, true) else usRun (usExec u op).1 r) = _
+      rw [e1]
+      rfl
+    rw [hr]
+    exact ⟨i1, i2, Nat.le_trans i3 e3, i4.trans e4, i5.trans e5, i6.trans e6⟩
+
+theorem us_preAll_take (ops : List USOp) : ∀ (u : PsipURI) (n : Nat), usPreAll u ops → usPreAll u (ops.take n) := by
+  induction ops with
+  | nil => intro u n h; rw [List.take_nil]; exact h
+  | cons op r ih =>
+    intro u n h
+    cases n with
+    | zero => exact trivial
+    | succ n => exact ⟨h.1, ih _ n h.2⟩
+
+/-- EXPORT C18 — **(1) … and at EVERY step** (after the first `n` calls, for every `n`): no call has panicked, the invariant holds, so
+    the hypotheses of the C18 theorems about AdjustOffs (`ULWF u (ulLen u)`, field for field `C18.WF`, and
+    `ulSum u ≤ ulLen u`) hold for the structure as it is then, and Long / Short do not panic on it -/
+theorem us_ops_every_step {u : PsipURI} (h : USWf u) (ops : List USOp) (hpre : usPreAll u ops) (n : Nat) :
+    (usRun u (ops.take n)).2 = false ∧ USWf (usRun u (ops.take n)).1 ∧
+    ULWF (usRun u (ops.take n)).1 (ulLen (usRun u (ops.take n)).1) ∧
+    ulSum (usRun u (ops.take n)).1 ≤ ulLen (usRun u (ops.take n)).1 ∧
+    ulLen (usRun u (ops.take n)).1 ≤ ulLen u ∧
+    (usRun u (ops.take n)).1.long.2 = false ∧ (usRun u (ops.take n)).1.short.2 = false := by
+  obtain ⟨a1, a2, a3, _⟩ := us_ops_never_panic (ops.take n) h (us_preAll_take ops u n hpre)
+  obtain ⟨v1, v2, _⟩ := us_short_prefix_long a2
+  exact ⟨a1, a2, a2.ulwf, a2.sum, a3, v1, v2⟩
+
+/-! ## (1) ParseURI establishes the invariant -/
+
+theorem us_uafter_cases (c : Nat) (f : PField) :
+    (f.offs = 0 ∧ uafter c f = c) ∨ (f.offs ≠ 0 ∧ uafter c f = f.offs + f.len) := by
+  unfold uafter
+  by_cases hz : f.offs = 0
+  · left; exact ⟨hz, by rw [if_pos hz]⟩
+  · right; exact ⟨hz, by rw [if_neg hz]⟩
+
+/-- the sip: / sips: shape -/
+theorem URILayout.us_wf {b : Buf} {k : Nat} {u : PsipURI} (h : URILayout b k u) (hk : 0 < k)
+    (hfit : b.size ≤ 65535) : USWf u := by
+  have hho := (h.ul_bounds hk).2.1
+  obtain ⟨hsch, hhl, hu, q1, q2, _, _, hend, a1, a2, a3⟩ := h.ul_facts
+  refine (us_wf_iff u).2 ⟨by rw [hsch]; exact hk, Or.inl hhl, ?_⟩
+  have hF : usFst u = u.user := by unfold usFst; rw [if_neg hho]
+  have hS : usSnd u = u.pass := by unfold usSnd; rw [if_neg hho]
+  rw [hF, hS, hsch]
+  simp only [Nat.zero_add]
+  have c1 := us_uafter_cases k u.user
+  have c2 := us_uafter_cases (uafter k u.user) u.pass
+  have t1 : usStepP k u.user (uafter k u.user) := by
+    clear a1 a2 a3 c2; unfold usStepP; omega
+  have t2 : usStepP (uafter k u.user) u.pass (uafter (uafter k u.user) u.pass) := by
+    clear a1 a2 a3; unfold usStepP; omega
+  have t3 : usStepP (uafter (uafter k u.user) u.pass) u.host (u.host.offs + u.host.len) := by
+    clear a1 a2 a3; unfold usStepP; omega
+  have t4 : usStepP (u.host.offs + u.host.len) u.port q1 := by
+    clear a2 a3 c1 c2 hu; unfold usStepP; omega
+  have t5 : usStepP q1 u.params q2 := by
+    clear a1 a3 c1 c2 hu; unfold usStepP; omega
+  have t6 : usStepP q2 u.headers b.size := by
+    clear a1 a2 c1 c2 hu; unfold usStepP; omega
+  exact ⟨_, _, _, q1, q2, b.size, t1, t2, t3, t4, t5, t6, by omega⟩
+
+/-- the tel: report (the host handed out as user, the password kept, which then stands BEFORE the user) -/
+theorem us_tel_wf {b : Buf} {u0 : PsipURI} (h : URILayout b 4 u0) (hfit : b.size ≤ 65535) : USWf (telSwap u0) := by
+  obtain ⟨hsch, hhl, hu, q1, q2, _, _, hend, a1, a2, a3⟩ := h.ul_facts
+  have hz : (telSwap u0).host.offs = 0 := rfl
+  refine (us_wf_iff _).2 ⟨by show 0 < u0.scheme.len; rw [hsch]; decide, Or.inr ⟨hz, hhl⟩, ?_⟩
+  have hF : usFst (telSwap u0) = u0.pass := by unfold usFst; rw [if_pos hz]; rfl
+  have hS : usSnd (telSwap u0) = u0.host := by unfold usSnd; rw [if_pos hz]; rfl
+  have hsc : (telSwap u0).scheme = ⟨0, 4⟩ := hsch
+  have hH : (telSwap u0).host = {} := rfl
+  have e1 : (telSwap u0).port = u0.port := rfl
+  have e2 : (telSwap u0).params = u0.params := rfl
+  have e3 : (telSwap u0).headers = u0.headers := rfl
+  rw [hF, hS, hsc, hH, e1, e2, e3]
+  simp only [Nat.zero_add]
+  have c1 := us_uafter_cases 4 u0.pass
+  have t1 : usStepP 4 u0.pass (uafter 4 u0.pass) := by
+    clear a1 a2 a3; unfold usStepP; omega
+  have t2 : usStepP (uafter 4 u0.pass) u0.host (u0.host.offs + u0.host.len) := by
+    clear a1 a2 a3; unfold usStepP; omega
+  have t4 : usStepP (u0.host.offs + u0.host.len) u0.port q1 := by
+    clear a2 a3 c1 hu; unfold usStepP; omega
+  have t5 : usStepP q1 u0.params q2 := by
+    clear a1 a3 c1 hu; unfold usStepP; omega
+  have t6 : usStepP q2 u0.headers b.size := by
+    clear a1 a2 c1 hu; unfold usStepP; omega
+  exact ⟨_, _, _, q1, q2, b.size, t1, t2, us_step_absent _, t4, t5, t6, by omega⟩
+
+/-- EXPORT C18 — **(1) what ParseURI establishes**: every URI accepted by ParseURI (sip:, sips:, tel:; input of at most
+    65,535 bytes) satisfies the invariant `USWf`, its scheme is at offset 0 and the length AdjustOffs computes is
+    len(b) -/
+theorem us_parsed_wf (b : Buf) (hfit : b.size ≤ 65535) (hacc : (parseURI b {}).1 = .none) :
+    USWf (parseURI b {}).2.2.1 ∧ (parseURI b {}).2.2.1.scheme.offs = 0 ∧ ulLen (parseURI b {}).2.2.1 = b.size := by
+  have hg := ul_parsed_good b hfit hacc
+  refine ⟨?_, hg.start, hg.len⟩
+  obtain ⟨_, t, k, u0, hk, hl, hty, hu⟩ := (parseURI_ok b hfit).2.2 hacc
+  rw [hu]
+  by_cases ht : t = TELuri
+  · rw [if_pos ht]
+    have hk4 : k = 4 := by
+      rcases hk with ⟨_, rfl, _⟩ | ⟨_, rfl, _⟩ | ⟨rfl, _, _⟩
+      · rfl
+      · rfl
+      · exact absurd ht (by decide)
+    subst hk4
+    exact us_tel_wf hl hfit
+  · rw [if_neg ht]
+    have hk0 : 0 < k := by rcases hk with ⟨_, rfl, _⟩ | ⟨_, rfl, _⟩ | ⟨_, rfl, _⟩ <;> omega
+    exact hl.us_wf hk0 hfit
+
+/-- EXPORT C18 — **(1) ANY finite sequence of Truncate / AdjustOffs (to any 16-bit spans, accepted or refused) / Long /
+    Short / Flat calls on a parsed URI never panics, and every theorem of C18 applies at every step**: for every
+    accepted input `b` (≤ 65,535 bytes), every list of calls whose only obligations are those of `usPre` (the span is
+    a pair of 16-bit numbers; the buffer given to Flat holds the span Long() reports) and every `n`: after the first
+    `n` calls nothing has panicked, the structure satisfies the invariant, hence `ULWF` (= `C18.WF`) with its own
+    computed length and `ulSum ≤ ulLen` — the hypotheses of `adjust_moves` / `adjust_refused` — and the computed
+    length never exceeds len(b) -/
+theorem uri_ops_never_panic (b : Buf) (hfit : b.size ≤ 65535) (hacc : (parseURI b {}).1 = .none)
+    (ops : List USOp) (hpre : usPreAll (parseURI b {}).2.2.1 ops) (n : Nat) :
+    (usRun (parseURI b {}).2.2.1 (ops.take n)).2 = false ∧
+    USWf (usRun (parseURI b {}).2.2.1 (ops.take n)).1 ∧
+    ULWF (usRun (parseURI b {}).2.2.1 (ops.take n)).1 (ulLen (usRun (parseURI b {}).2.2.1 (ops.take n)).1) ∧
+    ulSum (usRun (parseURI b {}).2.2.1 (ops.take n)).1 ≤ ulLen (usRun (parseURI b {}).2.2.1 (ops.take n)).1 ∧
+    ulLen (usRun (parseURI b {}).2.2.1 (ops.take n)).1 ≤ b.size ∧
+    (usRun (parseURI b {}).2.2.1 (ops.take n)).1.long.2 = false ∧
+    (usRun (parseURI b {}).2.2.1 (ops.take n)).1.short.2 = false := by
+  obtain ⟨hw, _, hlen⟩ := us_parsed_wf b hfit hacc
+  have := us_ops_every_step hw ops hpre n
+  rw [hlen] at this
+  exact this
+
+/-- EXPORT C18 — **(2) parse, relocate, relocate again**: for an accepted input and two spans that hold it (inside the
+    16-bit range), AdjustOffs to the first and then to the second gives exactly what AdjustOffs to the second gives
+    directly (so `C18.relocate_parsed` describes the result: every component reads the original bytes), and going
+    back to a span at offset 0 gives back the parsed URI itself -/
+theorem us_parsed_relocate_twice (b : Buf) (hfit : b.size ≤ 65535) (hacc : (parseURI b {}).1 = .none)
+    (np1 np2 : PField) (h1 : b.size ≤ np1.len) (l1 : np1.offs + np1.len < 65536) (h2 : b.size ≤ np2.len)
+    (l2 : np2.offs + np2.len < 65536) :
+    ((parseURI b {}).2.2.1.adjustOffs np1).1 = true ∧ ((parseURI b {}).2.2.1.adjustOffs np2).1 = true ∧
+    ((parseURI b {}).2.2.1.adjustOffs np1).2.1.adjustOffs np2 = (parseURI b {}).2.2.1.adjustOffs np2 ∧
+    (np2.offs = 0 → ((parseURI b {}).2.2.1.adjustOffs np1).2.1.adjustOffs np2 = (true, (parseURI b {}).2.2.1, false)) := by
+  obtain ⟨hw, hs, hlen⟩ := us_parsed_wf b hfit hacc
+  have s1 : usSpan np1 := ⟨by omega, by omega⟩
+  have s2 : usSpan np2 := ⟨by omega, by omega⟩
+  have e1 := us_adjust_eq hw np1 s1
+  have e2 := us_adjust_eq hw np2 s2
+  rw [if_pos ⟨l1, by omega⟩] at e1
+  rw [if_pos ⟨l2, by omega⟩] at e2
+  have acc1 : ((parseURI b {}).2.2.1.adjustOffs np1).1 = true := by rw [e1]
+  have acc2 : ((parseURI b {}).2.2.1.adjustOffs np2).1 = true := by rw [e2]
+  refine ⟨acc1, acc2, (us_adjust_adjust hw np1 np2 s1 s2 acc1).2.1 acc2, fun h0 => ?_⟩
+  exact us_adjust_back hw np1 np2 s1 s2 acc1 (by omega) (by omega) l2
+
+/-- EXPORT C18 — **(3) parse, Truncate, relocate**: the truncated URI is accepted by exactly the spans (inside the 16-bit
+    range) of at least `ulLen u.truncate` bytes — at most len(b), at least the length of Short(), equal to it unless
+    the port is present but empty — and Long / Short of the result are the Short of the parsed URI at the new offset -/
+theorem us_parsed_truncate_adjust (b : Buf) (hfit : b.size ≤ 65535) (hacc : (parseURI b {}).1 = .none)
+    (np : PField) (hnp : usSpan np) (hlim : np.offs + np.len < 65536) :
+    (((parseURI b {}).2.2.1.truncate.adjustOffs np).1 = true ↔ ulLen (parseURI b {}).2.2.1.truncate ≤ np.len) ∧
+    ((parseURI b {}).2.2.1.truncate.adjustOffs np).2.2 = false ∧
+    (parseURI b {}).2.2.1.short.1.len ≤ ulLen (parseURI b {}).2.2.1.truncate ∧
+    ulLen (parseURI b {}).2.2.1.truncate ≤ b.size ∧
+    (((parseURI b {}).2.2.1.port.offs ≠ 0 → 0 < (parseURI b {}).2.2.1.port.len) →
+      ulLen (parseURI b {}).2.2.1.truncate = (parseURI b {}).2.2.1.short.1.len) ∧
+    (((parseURI b {}).2.2.1.truncate.adjustOffs np).1 = true →
+      ((parseURI b {}).2.2.1.truncate.adjustOffs np).2.1.long =
+        ({ (parseURI b {}).2.2.1.short.1 with offs := np.offs }, false) ∧
+      ((parseURI b {}).2.2.1.truncate.adjustOffs np).2.1.short =
+        ({ (parseURI b {}).2.2.1.short.1 with offs := np.offs }, false)) := by
+  obtain ⟨hw, hs, hlen⟩ := us_parsed_wf b hfit hacc
+  obtain ⟨t1, t2, t3⟩ := us_truncate_adjust hw np hnp
+  obtain ⟨_, k2, k3⟩ := us_truncate_len hw
+  rw [hlen] at t2
+  by_cases hc : ulLen (parseURI b {}).2.2.1.truncate ≤ np.len
+  · rw [if_pos ⟨hlim, hc⟩] at t1
+    rw [t1]
+    exact ⟨⟨fun _ => hc, fun _ => rfl⟩, rfl, k2, t2, k3, fun _ => t3 (by omega)⟩
+  · rw [if_neg (fun hh => hc hh.2)] at t1
+    rw [t1]
+    exact ⟨⟨(fun hh => by cases hh), fun hh => absurd hh hc⟩, rfl, k2, t2, k3, (fun hh => by cases hh)⟩
+
+/-! ## (5) tests / non-vacuity: empty-but-present components (closed computations, `decide +kernel`)
+
+  `sip:h;` (parameters present, empty), `sip:h:` (port present, empty), `sip:u:@h` (password present, empty),
+  `sip:h?` (headers present, empty), `sip:h:;x` (empty port in the middle), `tel:a:b@c` (user behind the password). -/
+
+instance usSpanDec (np : PField) : Decidable (usSpan np) := by unfold usSpan; infer_instance
+
+/-- decision procedure for the caller's obligations (used by the tests only) -/
+def usPreDec (u : PsipURI) : (op : USOp) → Decidable (usPre u op)
+  | .truncate => isTrue trivial
+  | .adjust np => usSpanDec np
+  | .long => isTrue trivial
+  | .short => isTrue trivial
+  | .flat b => inferInstanceAs (Decidable (u.long.1.offs + u.long.1.len ≤ b.size))
+
+def usPreAllDec : (u : PsipURI) → (ops : List USOp) → Decidable (usPreAll u ops)
+  | _, [] => isTrue trivial
+  | u, op :: r => @instDecidableAnd _ _ (usPreDec u op) (usPreAllDec (usExec u op).1 r)
+
+instance (u : PsipURI) (ops : List USOp) : Decidable (usPreAll u ops) := usPreAllDec u ops
+
+def usTP (s : String) : PsipURI := (parseURI s.toUTF8.data {}).2.2.1
+
+-- test: the four corner inputs are accepted; the empty component is PRESENT (offset ≠ 0, length 0)
+example : (parseURI "sip:h;".toUTF8.data {}).1 = .none ∧ (usTP "sip:h;").params = ⟨6, 0⟩ ∧
+    (parseURI "sip:h:".toUTF8.data {}).1 = .none ∧ (usTP "sip:h:").port = ⟨6, 0⟩ ∧
+    (parseURI "sip:u:@h".toUTF8.data {}).1 = .none ∧ (usTP "sip:u:@h").pass = ⟨6, 0⟩ ∧
+    (usTP "sip:u:@h").host = ⟨7, 1⟩ ∧
+    (parseURI "sip:h?".toUTF8.data {}).1 = .none ∧ (usTP "sip:h?").headers = ⟨6, 0⟩ := by decide +kernel
+
+-- non-vacuity: the hypotheses of `us_parsed_wf` are met by each of them, so every theorem above applies
+example : USWf (usTP "sip:h;") := (us_parsed_wf "sip:h;".toUTF8.data (by decide +kernel) (by decide +kernel)).1
+example : USWf (usTP "sip:h:") := (us_parsed_wf "sip:h:".toUTF8.data (by decide +kernel) (by decide +kernel)).1
+example : USWf (usTP "sip:u:@h") := (us_parsed_wf "sip:u:@h".toUTF8.data (by decide +kernel) (by decide +kernel)).1
+example : USWf (usTP "sip:h?") := (us_parsed_wf "sip:h?".toUTF8.data (by decide +kernel) (by decide +kernel)).1
+example : USWf (usTP "tel:a:b@c") := (us_parsed_wf "tel:a:b@c".toUTF8.data (by decide +kernel) (by decide +kernel)).1
+
+-- test: the computed length counts the dangling delimiter (6), Long() does not (5): a span of Long().Len bytes is
+-- REFUSED for these URIs, 6 bytes are needed; the relocated empty component stays present (106 ≠ 0)
+example : ulLen (usTP "sip:h;") = 6 ∧ (usTP "sip:h;").long = (⟨0, 5⟩, false) ∧
+    ((usTP "sip:h;").adjustOffs ⟨100, 5⟩) = (false, usTP "sip:h;", false) ∧
+    ((usTP "sip:h;").adjustOffs ⟨100, 6⟩).1 = true ∧
+    ((usTP "sip:h;").adjustOffs ⟨100, 6⟩).2.1.params = ⟨106, 0⟩ ∧
+    ((usTP "sip:h:").adjustOffs ⟨100, 5⟩).1 = false ∧ ((usTP "sip:h:").adjustOffs ⟨100, 6⟩).2.1.port = ⟨106, 0⟩ ∧
+    ((usTP "sip:h?").adjustOffs ⟨100, 5⟩).1 = false ∧ ((usTP "sip:h?").adjustOffs ⟨100, 6⟩).2.1.headers = ⟨106, 0⟩ ∧
+    ((usTP "sip:u:@h").adjustOffs ⟨100, 7⟩).1 = false ∧ ((usTP "sip:u:@h").adjustOffs ⟨100, 8⟩).2.1.pass = ⟨106, 0⟩ := by
+  decide +kernel
+
+-- test (2): relocate twice = relocate once; back to offset 0 = the parsed URI; all four corner inputs and tel:
+example : ∀ s ∈ ["sip:h;", "sip:h:", "sip:u:@h", "sip:h?", "sip:h:;x", "tel:a:b@c"],
+    (((usTP s).adjustOffs ⟨100, 9⟩).2.1.adjustOffs ⟨7, 20⟩) = (usTP s).adjustOffs ⟨7, 20⟩ ∧
+    ((usTP s).adjustOffs ⟨7, 20⟩).1 = true ∧
+    (((usTP s).adjustOffs ⟨100, 9⟩).2.1.adjustOffs ⟨0, 9⟩) = (true, usTP s, false) := by decide +kernel
+
+-- the same through the theorems (hypotheses instantiated)
+example : ((usTP "sip:h;").adjustOffs ⟨100, 9⟩).2.1.adjustOffs ⟨0, 9⟩ = (true, usTP "sip:h;", false) :=
+  us_adjust_back (us_parsed_wf "sip:h;".toUTF8.data (by decide +kernel) (by decide +kernel)).1 ⟨100, 9⟩ ⟨0, 9⟩
+    (by decide) (by decide) (by decide +kernel) (by decide +kernel) (by decide +kernel) (by decide)
+
+-- test (3): the threshold after Truncate. `sip:h;` / `sip:h?`: 5 (the dangling delimiter went with the component);
+-- `sip:h:` and `sip:h:;x`: 6 although Long() of the truncated URI is `sip:h` = 5 bytes — the empty port is still
+-- present; `sips:u@h:5;a?b` (14 bytes): 10, not 14
+example : ulLen (usTP "sip:h;").truncate = 5 ∧ ulLen (usTP "sip:h?").truncate = 5 ∧
+    ((usTP "sip:h;").truncate.adjustOffs ⟨9, 5⟩).1 = true ∧ ((usTP "sip:h;").truncate.adjustOffs ⟨9, 4⟩).1 = false ∧
+    ulLen (usTP "sip:h:").truncate = 6 ∧ (usTP "sip:h:").truncate.long = (⟨0, 5⟩, false) ∧
+    ((usTP "sip:h:").truncate.adjustOffs ⟨9, 5⟩).1 = false ∧ ((usTP "sip:h:").truncate.adjustOffs ⟨9, 6⟩).1 = true ∧
+    ulLen (usTP "sip:h:;x") = 8 ∧ ulLen (usTP "sip:h:;x").truncate = 6 ∧
+    (usTP "sip:h:;x").truncate.long = (⟨0, 5⟩, false) ∧
+    ((usTP "sip:h:;x").truncate.adjustOffs ⟨9, 5⟩).1 = false ∧
+    ((usTP "sip:h:;x").truncate.adjustOffs ⟨9, 6⟩).2.1.long = (⟨9, 5⟩, false) ∧
+    ulLen (usTP "sips:u@h:5;a?b") = 14 ∧ ulLen (usTP "sips:u@h:5;a?b").truncate = 10 ∧
+    ((usTP "sips:u@h:5;a?b").truncate.adjustOffs ⟨9, 10⟩).1 = true ∧
+    ((usTP "sips:u@h:5;a?b").truncate.adjustOffs ⟨9, 9⟩).1 = false := by decide +kernel
+
+-- test (4): the views of the relocated URI are the relocated views
+example : ∀ s ∈ ["sip:h;", "sip:h:", "sip:u:@h", "sip:h?", "sip:h:;x", "tel:a:b@c", "sips:u@h:5;a?b"],
+    ((usTP s).adjustOffs ⟨100, 14⟩).1 = true ∧
+    ((usTP s).adjustOffs ⟨100, 14⟩).2.1.long = ({ (usTP s).long.1 with offs := 100 }, false) ∧
+    ((usTP s).adjustOffs ⟨100, 14⟩).2.1.short = ({ (usTP s).short.1 with offs := 100 }, false) := by decide +kernel
+
+-- test (4), bytes: "sip:u:@h" sits at offset 4 of "To:<sip:u:@h>"; Flat of the relocated URI there = Flat of the
+-- original = the 8 bytes; `USSameText` is satisfiable
+example : USSameText "To:<sip:u:@h>".toUTF8.data 4 "sip:u:@h".toUTF8.data 0 8 := by
+  refine ⟨?_, ?_, ?_⟩ <;> decide +kernel
+example : (ulRelocate (usTP "sip:u:@h") 4).flat "To:<sip:u:@h>".toUTF8.data = some "sip:u:@h".toUTF8.data ∧
+    (usTP "sip:u:@h").flat "sip:u:@h".toUTF8.data = some "sip:u:@h".toUTF8.data ∧
+    (ulRelocate (usTP "sip:h;") 4).flat "To:<sip:h;>".toUTF8.data = some "sip:h".toUTF8.data := by decide +kernel
+
+-- `us_parsed_relocate_twice`, `us_parsed_truncate_adjust`, `us_adjust_views` with all hypotheses instantiated
+example : ((usTP "sip:u:@h").adjustOffs ⟨100, 8⟩).2.1.adjustOffs ⟨0, 9⟩ = (true, usTP "sip:u:@h", false) :=
+  (us_parsed_relocate_twice "sip:u:@h".toUTF8.data (by decide +kernel) (by decide +kernel) ⟨100, 8⟩ ⟨0, 9⟩
+    (by decide +kernel) (by decide) (by decide +kernel) (by decide)).2.2.2 rfl
+example : ((usTP "sip:h:;x").truncate.adjustOffs ⟨9, 6⟩).1 = true :=
+  (us_parsed_truncate_adjust "sip:h:;x".toUTF8.data (by decide +kernel) (by decide +kernel) ⟨9, 6⟩ (by decide)
+    (by decide)).1.2 (by decide +kernel)
+example : ((usTP "sip:h?").adjustOffs ⟨4, 6⟩).2.1.flat "To:<sip:h?>".toUTF8.data = (usTP "sip:h?").flat "sip:h?".toUTF8.data :=
+  ((us_adjust_views (us_parsed_wf "sip:h?".toUTF8.data (by decide +kernel) (by decide +kernel)).1 ⟨4, 6⟩ (by decide)
+    (by decide +kernel)).2.2.2.2 "To:<sip:h?>".toUTF8.data "sip:h?".toUTF8.data
+    (by refine ⟨?_, ?_, ?_⟩ <;> decide +kernel)).1
+
+/-- a sequence of calls on the parsed `sip:h:;x`: views, a relocation, Flat in the new buffer, a refused span, a span
+    whose end wraps, Truncate, a relocation onto 6 bytes, one onto 5 bytes (refused: the empty port is present) -/
+def usTOps : List USOp :=
+  [.long, .adjust ⟨4, 8⟩, .flat "To:<sip:h:;x>".toUTF8.data, .adjust ⟨50, 7⟩, .adjust ⟨65530, 8⟩, .short, .truncate,
+   .adjust ⟨200, 6⟩, .adjust ⟨300, 5⟩, .long, .flat (Array.replicate 205 0)]
+
+-- test: the caller's obligations hold along the sequence; nothing panics; the structure at the end
+example : usPreAll (usTP "sip:h:;x") usTOps := by decide +kernel
+example : usRun (usTP "sip:h:;x") usTOps =
+    ({ uriType := SIPuri, scheme := ⟨200, 4⟩, host := ⟨204, 1⟩, port := ⟨206, 0⟩ }, false) := by decide +kernel
+-- … and `uri_ops_never_panic` with all hypotheses instantiated, after 9 of the 11 calls
+example : (usRun (usTP "sip:h:;x") (usTOps.take 9)).2 = false ∧ USWf (usRun (usTP "sip:h:;x") (usTOps.take 9)).1 :=
+  have h := uri_ops_never_panic "sip:h:;x".toUTF8.data (by decide +kernel) (by decide +kernel) usTOps
+    (by decide +kernel) 9
+  ⟨h.1, h.2.1⟩
+-- test: the interpreter does report a panic when the obligation of Flat is NOT met (buffer too short)
+example : usRun (usTP "sip:h;") [.flat "sip".toUTF8.data, .truncate] = (usTP "sip:h;", true) := by decide +kernel
 
 end Sipsp
